@@ -165,6 +165,23 @@ class TypeHole:
             conds.append(z3.Implies(self.tdisc == TI['Array'], B(False)))
         return z3.And(conds)
 
+    def repr_ok(self, sem, fmt):
+        """the decoded spelling uses the SELECTED representation: glam / nalgebra types exactly where that library has the type
+        (documented fallback: plain arrays elsewhere), plain arrays under Rust"""
+        TI, SK = self.TI, self.SK
+        B = z3.BoolVal
+        r = sem.get('repr')
+        if r is None:
+            return B(True)
+        is_vec, is_mat = self.tdisc == TI['Vector'], self.tdisc == TI['Matrix']
+        glam_vec = z3.And(is_vec, z3.Or(z3.And(self.kind == SK['Float'], z3.Or(self.width == 4, self.width == 8)),
+                                        z3.And(z3.Or(self.kind == SK['Uint'], self.kind == SK['Sint']), self.width == 4)))
+        glam_mat = z3.And(is_mat, self.cols == self.rows)
+        want_glam = z3.And(fmt == 1, z3.Or(glam_vec, glam_mat))
+        want_nalg = z3.And(fmt == 2, z3.Or(is_vec, is_mat))
+        leaf = z3.Or(is_vec, is_mat, self.tdisc == TI['Scalar'], self.tdisc == TI['Atomic'])
+        return z3.Implies(leaf, z3.And(want_glam == B(r == 'glam'), want_nalg == B(r == 'nalgebra')))
+
     def describe(self, m):
         g = lambda t: model_value(m, t)
         inv = {v: k for k, v in self.TI.items()}
